@@ -201,3 +201,20 @@ MUTANTS += [
     ("c08_footprint_not_reflected", "C08", "solver.py", '        p = fft2(fftp, norm="backward").real  # concentration\n        q = fft2(fftq, norm="backward").real  # kinematic flux\n', '        p = ifft2(fftp, norm="forward").real  # concentration\n        q = ifft2(fftq, norm="forward").real  # kinematic flux\n'),
     ("c08_offset_10deg", "C08", "utils.py", "    wind_dir = np.deg2rad(wind_dir)\n", "    wind_dir = np.deg2rad(wind_dir + 10.0)\n"),
 ]
+
+MUTANTS += [
+    # ---- C15
+    ("c15_key_drops_meas_pt", "C15", "cache.py", "        h.update(np.asarray(meas_pt).tobytes())\n", ""),
+    ("c15_key_halo_constant", "C15", "cache.py", "        h.update(str(halo).encode())\n", "        h.update(b'halo')\n"),
+    ("c15_hit_swaps_fields", "C15", "cache.py", '                        data["conc"],\n                        data["flx"],\n', '                        data["flx"],\n                        data["conc"],\n'),
+    ("c15_extra_dropped", "C15", "cache.py", "        if extra is not None:\n", "        if False:\n"),
+    # c15_nonatomic_regression (plain np.savez onto the final name, unreadable => miss kept) preserves the property as stated:
+    # every partial archive lacks its central directory and is a miss; correctly passes C15 (it is a C14 stressor only without the miss rule)
+    ("c15_unreadable_fatal_regression", "C15", "cache.py", "            except Exception as e:\n                # truncated or corrupt entry (e.g. interrupted run): a miss\n", "            except KeyError as e:\n                # truncated or corrupt entry (e.g. interrupted run): a miss\n"),
+    ("c15_lookup_before_halo_default", "C15", "solver.py", "            z, profiles, domain, modes, meas_pt, halo, precision, extra=cache_extra\n        )\n        if cached is not None:", "            z, profiles, domain, modes, meas_pt, None if halo == max(xmx, ymx) else halo, precision, extra=cache_extra\n        )\n        if cached is not None:"),
+    ("c15_levels_sorted_in_key", "C15", "solver.py", "            np.asarray(levels).tolist(),\n", "            sorted(np.asarray(levels).tolist()),\n"),
+    ("c15_never_hits", "C15", "cache.py", "        if path.exists():\n            try:", "        if path.exists() and False:\n            try:"),
+    ("c15_cache_dispersion_too", "C15", "solver.py", "    if cache is not None and footprint:\n        cache_extra = (", "    if cache is not None:\n        cache_extra = ("),
+    ("c15_precision_not_keyed", "C15", "cache.py", "        h.update(precision.encode())\n", ""),
+    ("c15_profiles_first_only", "C15", "cache.py", "        for arr in profiles:\n            h.update(np.asarray(arr).tobytes())\n", "        for arr in profiles[:1]:\n            h.update(np.asarray(arr).tobytes())\n"),
+]
